@@ -199,6 +199,12 @@ class Builder:
             self.update_scope_tree(graph)
         self.resolve_scopes()
 
+        # Subgraphs are adapted while they are compiled, so they have to know the opset
+        # requirements of everything that ends up in the same model.
+        self.model_opset_req = set(self.main._extra_opset_req or ()).union(
+            *(node.opset_req for graph in self.graphs for node in self.scope_own[graph])
+        )
+
         # Compilation
         return self.compile_graph(self.main, Scope())
 
@@ -399,7 +405,9 @@ class Builder:
         ) -> onnx.GraphProto:
             nonlocal subgraph_opset_req
             subgraph_name = scope.node[subgraph_of] + f"_{key}"
-            subgraph = subgraph.with_name(subgraph_name)._inject_build_result(
+            subgraph = subgraph.with_name(subgraph_name).with_opset(
+                *self.model_opset_req
+            )._inject_build_result(
                 self.compile_graph(subgraph, scope, subgraph_name + "__")
             )
             subgraph_opset_req |= subgraph._get_build_result().opset_req
